@@ -175,7 +175,7 @@ pub fn gen_giant_inbound_opts(r: &mut Rng, seq: u8, text_only: bool) -> Plan {
                     act: Act::None,
                 }
             };
-            if r.coin() {
+            if r.chance(2, 3) {
                 let c = small(r);
                 cmds.push(c);
             }
